@@ -2,7 +2,7 @@
 import json
 import random
 
-from .. import core, flow, oracles_sde as osde, oracles_taylor as ot, tables
+from .. import core, flow, corr_loop, oracles_sde as osde, oracles_taylor as ot, tables
 
 PROOFS = ['Tsv.Proofs.C01', 'Tsv.Proofs.C02Taylor', 'Tsv.Proofs.C02SRK', 'Tsv.Proofs.LoopCore', 'Tsv.Proofs.C12']
 TRUSTED = ["Lean 4.33 kernel + Mathlib", "tracer/emitter and vlib/tables.py (strong_order read off real solver objects on every run)",
@@ -44,6 +44,11 @@ def run(rep, tier, seed):
     flow.run_gen(rep, {'Steps', 'Staged', 'Loop'}, seed, 6 if tier == 'quick' else 60)
     flow.run_proofs(rep, PROOFS, extra_scan=['Tsv.Gen.Steps', 'Tsv.Gen.Staged', 'Tsv.Gen.Tables', 'Tsv.Spec.Taylor', 'Tsv.Model.Loop'])
     rng = random.Random(seed)
+    # gronwall_discrete / the grid theorems speak about the loop MODEL: tie it to the real integrate here too
+    c = corr_loop.run(rng, 40 if tier == 'quick' else 600, 0)
+    rep.ob('correspondence:integrate-fixed', f"{c.get('cases', 0)} runs / {c.get('steps', 0)} steps", c['ok'],
+           json.dumps(c.get('mismatches') or c.get('error', ''), default=str)[:1200])
+    rep.cov['correspondence'] = {k: v for k, v in c.items() if k != 'mismatches'}
     fails, st = core.safe(osde.c01_search, rng, 1 if tier == 'quick' else 6)
     rep.ob('oracle:strong-order-on-real-sdeint-vs-closed-form', f"{st['evals']} (solver, noise, SDE) cases", not fails,
            json.dumps(fails[:1], default=str)[:900])
@@ -54,7 +59,7 @@ def run(rep, tier, seed):
     rep.cov['real_code_oracle'] = dict(global_order=st, local=st2, adaptive=n3)
     rep.cov.update(evaluations=st['evals'] + st2['evals'] + n3, distinct_nontrivial=len(st.get('slopes', {})),
                    rule="(a) every solver x multiplicative noise type x grad_free at d=m=1 on geometric Brownian motion or dy = sqrt(1+y^2) o dW "
-                        "(closed form on the SAME Brownian path), 400 paths, dt = 2^-3, 2^-5, 2^-7: observed RMS slope >= advertised - 0.3; "
+                        "(closed form on the SAME Brownian path), 400 paths, dt = 2^-3, 2^-5, 2^-7 or T/(2^k+1/2) (last step clipped): observed RMS slope >= advertised - 0.3; "
                         "(b) the local expansion oracle of C02; (c) adaptive: error at rtol=atol=1e-3 below the one at 1e-1")
     rep._f = fails + f2 + f3
     return flow.conclude(rep, lambda r, b: r._f or (osde.c01_search(random.Random(r.seed + 1), 3)[0] or ot.search(random.Random(r.seed + 2), 4)[0]),
@@ -67,5 +72,6 @@ def replay(path):
     print(json.dumps(f or d['broken'], indent=1, default=str)[:3000])
     if f and f.get('kind') == 'c01':
         print('now:', osde.strong_order_estimate(f['method'], f['sde_type'], f['noise'], f['seed'],
-                                                  options=dict(grad_free=True) if f.get('grad_free') else None, family=f.get('family', 'gbm')))
+                                                  options=dict(grad_free=True) if f.get('grad_free') else None, family=f.get('family', 'gbm'),
+                                                  grid=f.get('grid', 'dividing')))
     return 1
